@@ -206,6 +206,17 @@ pub mod tstd {
     pub assume_specification[f32::max](x: f32, y: f32) -> (r: f32) ensures r == f_max(x, y);
     pub assume_specification[f32::min](x: f32, y: f32) -> (r: f32) ensures r == f_min(x, y);
 
+    // wall clock: now() / elapsed() return arbitrary values (no assumption about time passing)
+    #[verifier::external_type_specification]
+    #[verifier::external_body]
+    pub struct ExInstant(std::time::Instant);
+    pub assume_specification[std::time::Instant::now]() -> std::time::Instant;
+    pub assume_specification[std::time::Instant::elapsed](i: &std::time::Instant) -> std::time::Duration;
+    pub assume_specification[std::time::Duration::from_millis](ms: u64) -> std::time::Duration;
+    pub uninterp spec fn duration_cmp(a: std::time::Duration, b: std::time::Duration) -> Option<core::cmp::Ordering>;
+    pub assume_specification[<std::time::Duration as PartialOrd>::partial_cmp](a: &std::time::Duration, b: &std::time::Duration) -> (r: Option<core::cmp::Ordering>)
+        ensures r == duration_cmp(*a, *b);
+
     pub assume_specification<'a, K: Eq + Hash, V, S: BuildHasher, A: Allocator, Q: Hash + Eq + ?Sized>[HashMap::<K, V, S, A>::get_mut::<Q>](m: &'a mut HashMap<K, V, S, A>, k: &Q) -> (r: Option<&'a mut V>)
         where K: Borrow<Q>
         ensures
@@ -284,6 +295,52 @@ pub mod spec {
     pub open spec fn f32_gt(a: f32, b: f32) -> bool { a.partial_cmp_spec(&b) == Some(core::cmp::Ordering::Greater) }
     pub open spec fn f32_le(a: f32, b: f32) -> bool { a.partial_cmp_spec(&b) == Some(core::cmp::Ordering::Less) || a.partial_cmp_spec(&b) == Some(core::cmp::Ordering::Equal) }
     pub open spec fn f32_eq(a: f32, b: f32) -> bool { a.eq_spec(&b) }
+    // A-hash: String's Hash and Eq are consistent (vstd has this for the primitive key types)
+    #[verifier::allow(broadcast_without_trigger)]
+    pub broadcast axiom fn ax_string_key_model() ensures vstd::std_specs::hash::obeys_key_model::<String>();
+    /// A-hash (continued): looking a String-keyed map up with a &str finds the String with the same characters
+    pub broadcast axiom fn ax_string_borrow_contains<V>(m: Map<String, V>, k: &str, s: String)
+        ensures s@ == k@ ==> (#[trigger] vstd::std_specs::hash::contains_borrowed_key::<String, V, str>(m, k) == #[trigger] m.contains_key(s));
+    pub broadcast axiom fn ax_string_borrow_maps<V>(m: Map<String, V>, k: &str, s: String, v: V)
+        ensures s@ == k@ ==> (#[trigger] vstd::std_specs::hash::maps_borrowed_key_to_value::<String, V, str>(m, k, v) == (#[trigger] m.contains_key(s) && m[s] == v));
+    // A-clone: the derived Clone of the crate's data types returns a structurally equal value
+    pub broadcast axiom fn ax_clone_item(a: crate::push::item::Item, b: crate::push::item::Item) ensures #[trigger] cloned(a, b) ==> a == b;
+    pub broadcast axiom fn ax_clone_boolvector(a: crate::push::vector::BoolVector, b: crate::push::vector::BoolVector) ensures #[trigger] cloned(a, b) ==> a == b;
+    pub broadcast axiom fn ax_clone_intvector(a: crate::push::vector::IntVector, b: crate::push::vector::IntVector) ensures #[trigger] cloned(a, b) ==> a == b;
+    pub broadcast axiom fn ax_clone_floatvector(a: crate::push::vector::FloatVector, b: crate::push::vector::FloatVector) ensures #[trigger] cloned(a, b) ==> a == b;
+    pub broadcast axiom fn ax_clone_index(a: crate::push::index::Index, b: crate::push::index::Index) ensures #[trigger] cloned(a, b) ==> a == b;
+    pub broadcast axiom fn ax_clone_graph(a: crate::push::graph::Graph, b: crate::push::graph::Graph) ensures #[trigger] cloned(a, b) ==> a == b;
+    pub broadcast axiom fn ax_clone_message(a: crate::push::io::PushMessage, b: crate::push::io::PushMessage) ensures #[trigger] cloned(a, b) ==> a == b;
+    pub assume_specification[<crate::push::item::Item as Clone>::clone](a: &crate::push::item::Item) -> (b: crate::push::item::Item) ensures b == *a;
+    pub assume_specification[<crate::push::vector::BoolVector as Clone>::clone](a: &crate::push::vector::BoolVector) -> (b: crate::push::vector::BoolVector) ensures b == *a;
+    pub assume_specification[<crate::push::vector::IntVector as Clone>::clone](a: &crate::push::vector::IntVector) -> (b: crate::push::vector::IntVector) ensures b == *a;
+    pub assume_specification[<crate::push::vector::FloatVector as Clone>::clone](a: &crate::push::vector::FloatVector) -> (b: crate::push::vector::FloatVector) ensures b == *a;
+    pub assume_specification[<crate::push::index::Index as Clone>::clone](a: &crate::push::index::Index) -> (b: crate::push::index::Index) ensures b == *a;
+    pub assume_specification[<crate::push::graph::Graph as Clone>::clone](a: &crate::push::graph::Graph) -> (b: crate::push::graph::Graph) ensures b == *a;
+    pub assume_specification[<crate::push::io::PushMessage as Clone>::clone](a: &crate::push::io::PushMessage) -> (b: crate::push::io::PushMessage) ensures b == *a;
+    pub broadcast group group_clone {
+        ax_string_key_model, ax_string_borrow_contains, ax_string_borrow_maps, ax_clone_item, ax_clone_boolvector, ax_clone_intvector, ax_clone_floatvector, ax_clone_index, ax_clone_graph, ax_clone_message,
+    }
+    
+    /// C01's resource envelope: every stack, vector and record is smaller than 2^31-1 items.
+    /// (C15 is about the envelope itself.)  It is the only global precondition of instruction units.
+    pub open spec fn envelope(s: crate::push::state::PushState) -> bool {
+        &&& s.bool_stack@.len() < 0x7fff_ffff
+        &&& s.code_stack@.len() < 0x7fff_ffff
+        &&& s.exec_stack@.len() < 0x7fff_ffff
+        &&& s.float_stack@.len() < 0x7fff_ffff
+        &&& s.index_stack@.len() < 0x7fff_ffff
+        &&& s.int_stack@.len() < 0x7fff_ffff
+        &&& s.name_stack@.len() < 0x7fff_ffff
+        &&& s.bool_vector_stack@.len() < 0x7fff_ffff
+        &&& s.float_vector_stack@.len() < 0x7fff_ffff
+        &&& s.int_vector_stack@.len() < 0x7fff_ffff
+        &&& forall|i: int| 0 <= i < s.bool_vector_stack@.len() ==> (#[trigger] s.bool_vector_stack@[i]).values@.len() < 0x7fff_ffff
+        &&& forall|i: int| 0 <= i < s.int_vector_stack@.len() ==> (#[trigger] s.int_vector_stack@[i]).values@.len() < 0x7fff_ffff
+        &&& forall|i: int| 0 <= i < s.float_vector_stack@.len() ==> (#[trigger] s.float_vector_stack@[i]).values@.len() < 0x7fff_ffff
+    }
+    
+    
     pub uninterp spec fn f_sin(x: f32) -> f32;
     pub uninterp spec fn f_cos(x: f32) -> f32;
     pub uninterp spec fn f_tan(x: f32) -> f32;
